@@ -234,6 +234,11 @@ def verify_function(eng, con, only_scenarios=None):
                         except Unsupported as e:    # the clause cannot be evaluated on this path
                             rep.unsupported = f"{sc.name}: clause {name}: {e}"
                             return
+                        except (AttributeError, TypeError) as e:
+                            # the clause met a value of a shape it was not written for (e.g. an opaque argument after
+                            # the code changed): it cannot be evaluated here - unsupported, not a checker crash
+                            rep.unsupported = f"{sc.name}: clause {name} not evaluable on this path: {type(e).__name__}: {e}"
+                            return
                     if goal is True:
                         goal = z3.BoolVal(True)
                     if goal is False:
